@@ -1,8 +1,10 @@
 """C06 - same seed, same trajectory.
 
-Configuration alphabet: 7 drivers x 2-3 move tables x seeds {0,1,2,42,2^32-1,2^32,2^63,2^64-1,
-f(VERIF_SEED)} x states of the global generators {untouched, reseeded differently before each of
-the two runs, consumed between the runs}.  Two simulations in one process, n = 5 steps, compared
+Configuration alphabet: 7 drivers x 2-4 move tables (explicit and default operations) x seeds
+{0,1,2,42,2^32-1,2^32,2^63,2^64-1, f(VERIF_SEED), the same values as numpy integer scalars} x
+states of the process {global generators untouched, reseeded differently before each of the two
+runs, consumed between the runs, the operations of the first simulation re-tuned in place before
+the second is built}.  Two simulations in one process, n = 5 steps, compared
 bitwise after every step (positions, cell, numbers, move history) and in their log text; runs
 with different seeds must differ; a monitor traps draws from numpy's / Python's global generators
 made while a simulation is running.
@@ -34,6 +36,10 @@ CONFIGS = [
     ("Isotension", dict(ens="Isotension", atoms="T3", table=[["c", "C_aniso"], ["d", "D_box"]], stress=[[0.001, 0.0005, 0], [0.0005, 0.002, 0], [0, 0, 0.001]], max_cycles=3)),
     ("GrandCanonical", dict(ens="GrandCanonical", atoms="A3", table=[["e", "E_trans"], ["d", "D_ball"]], T=800.0, mu=-0.3, max_cycles=3)),
     ("GrandCanonical", dict(ens="GrandCanonical", atoms="M", table=[["e", "E_transrot"], ["x", "E_transrot*2"]], calc="zero", T=800.0, mu=-0.2, max_cycles=2)),
+    ("Canonical", dict(ens="Canonical", atoms="A3", table=[["d", "D_default"]], max_cycles=2)),
+    ("Isobaric", dict(ens="Isobaric", atoms="A3", table=[["c", "C_default"], ["d", "D_default"]], max_cycles=2)),
+    ("GrandCanonical", dict(ens="GrandCanonical", atoms="A3", table=[["e", "E_default"], ["d", "D_default"]], T=800.0, mu=-0.3, max_cycles=2)),
+    ("HamiltonianCanonical", dict(ens="HamiltonianCanonical", atoms="A3", table=[["h", "H_default"]], calc="harmonic", max_cycles=1)),
     ("ForceBias", dict(ens="ForceBias")),
     ("AdaptiveForceBias", dict(ens="AdaptiveForceBias", scheme="forces")),
     ("AdaptiveForceBias", dict(ens="AdaptiveForceBias", scheme="energy")),
@@ -127,8 +133,48 @@ class Monitor:
             setattr(mod, name, orig)
 
 
-def trajectory(cfg, seed, monitor=None):
-    sim, atoms, log = make(cfg, seed)
+def decode_seed(seed):
+    """Seeds travel as JSON: 'int64:42' stands for numpy.int64(42)."""
+    if isinstance(seed, str):
+        kind, v = seed.split(":")
+        return getattr(np, kind)(int(v))
+    return seed
+
+
+def retune(sim):
+    """The user (or an adaptive scheme) re-tunes, in place, the operations of a finished simulation."""
+    from qv.systems import flatten_moves
+
+    def ops(op):
+        if hasattr(op, "operations"):
+            for o in op.operations:
+                yield from ops(o)
+        else:
+            yield op
+            for nm in ("translation", "rotation"):
+                if hasattr(op, nm):
+                    yield getattr(op, nm)
+
+    for st in getattr(sim, "moves", {}).values():
+        for leaf in flatten_moves(st.move):
+            if getattr(leaf, "operation", None) is None:
+                continue
+            for op in ops(leaf.operation):
+                for nm, f in (("step_size", 2.5), ("max_value", 2.5), ("dt", 0.5)):
+                    if hasattr(op, nm):
+                        setattr(op, nm, getattr(op, nm) * f)
+        if hasattr(st.criteria, "__dict__"):
+            pass
+    for nm in ("delta", "min_delta", "max_delta"):
+        if hasattr(sim, nm):
+            try:
+                setattr(sim, nm, getattr(sim, nm) * 1.7)
+            except Exception:  # noqa: BLE001
+                pass
+
+
+def trajectory(cfg, seed, monitor=None, after=None):
+    sim, atoms, log = make(cfg, decode_seed(seed))
     frames = []
     if monitor:
         monitor.armed = True
@@ -145,6 +191,8 @@ def trajectory(cfg, seed, monitor=None):
     text = log.getvalue()
     used = getattr(sim, "_seed", None)
     sim.close()
+    if after is not None:
+        after(sim)
     return frames, text, used
 
 
@@ -159,15 +207,15 @@ def task(arg):
         if seen[sig] <= 2:
             viol.append({"signature": sig, "what": what, "replay": {"check": PID, "func": "task", "arg": arg}})
 
-    per_seed = {}
+    per_seed, plain = {}, {}
     with Monitor() as mon:
         for seed in seeds:
-            for gstate in ("untouched", "reseeded-differently", "consumed-between"):
+            for gstate in ("untouched", "reseeded-differently", "consumed-between", "earlier-simulation-retuned"):
                 counters["evaluations"] += 1
                 if gstate == "reseeded-differently":
                     np.random.seed(1)
                     random.seed(1)
-                a = trajectory(cfg, seed, mon)
+                a = trajectory(cfg, seed, mon, after=retune if gstate == "earlier-simulation-retuned" else None)
                 if gstate == "reseeded-differently":
                     np.random.seed(2)
                     random.seed(2)
@@ -178,15 +226,20 @@ def task(arg):
                 if gstate != "untouched":
                     counters["nontrivial"] += 1
                 where = f"{name} table {cfg.get('table', cfg.get('scheme', ''))} seed {seed} global generators {gstate}"
-                skind = "seed-zero" if seed == 0 else "seed>=2^63" if seed >= 2**63 else "seed"
-                if a[2] is not None and a[2] != seed:
+                ival = int(decode_seed(seed))
+                skind = "numpy-integer-seed" if isinstance(seed, str) else "seed-zero" if ival == 0 else "seed>=2^63" if ival >= 2**63 else "seed"
+                if a[2] is not None and int(a[2]) != ival:
                     V(f"C06/{name}/{skind}/seed-replaced", f"simulation built with seed {seed} uses seed {a[2]}; {where}")
                 if a[0] != b[0]:
                     k = next(i for i, (x, y) in enumerate(zip(a[0], b[0])) if x != y)
                     V(f"C06/{name}/{skind}/{gstate}/trajectories-differ", f"two runs differ from step {k + 1}; {where}")
                 elif a[1] != b[1]:
                     V(f"C06/{name}/{skind}/{gstate}/logs-differ", f"same trajectory, different log text; {where}")
-                per_seed[seed] = a[0]
+                per_seed[ival] = a[0]
+                if isinstance(seed, str) and ival in plain and plain[ival] != a[0]:
+                    V(f"C06/{name}/numpy-integer-seed/differs-from-python-int-seed", f"seed {seed} and the Python integer {ival} give different trajectories; {where}")
+                if not isinstance(seed, str):
+                    plain[ival] = a[0]
     for h in sorted(set(mon.hits)):
         V(f"C06/{name}/global-generator-draw/{h}", f"a draw from a process-global generator was made while the simulation ran: {h}")
     ss = sorted(per_seed)
@@ -201,9 +254,9 @@ def task(arg):
 def run(tier, seed):
     rep = Report("exploration")
     acc = Acc()
-    seeds = [0, 1, 2, 42, 2**32 - 1, 2**32, 2**63, 2**64 - 1, 1000003 + (seed % 100000)]
+    seeds = [0, 1, 2, 42, 2**32 - 1, 2**32, 2**63, 2**64 - 1, 1000003 + (seed % 100000), "int64:42", "uint32:2", "int32:0", "uint64:18446744073709551615"]
     if tier == "thorough":
-        seeds += [3, 7, 2**31, 2**53 + 1, 2**64 - 2, 123456789012345678]
+        seeds += [3, 7, 2**31, 2**53 + 1, 2**64 - 2, 123456789012345678, "int64:3", "uint8:7", "intp:2147483648"]
     args = [{"config": i, "seeds": seeds} for i in range(len(CONFIGS))]
     for r in pmap(__name__, "task", args):
         acc.add(r)
